@@ -151,6 +151,14 @@ class EqualsValidator(_ToTupleValidator[ExactMatchT]):
         self.preprocessors = preprocessors
         self.predicate: EqualTo[ExactMatchT] = EqualTo(match)
 
+    def __eq__(self, other: Any) -> bool:
+        return (
+            type(self) is type(other)
+            and type(self.match) is type(other.match)
+            and self.match == other.match
+            and self.preprocessors == other.preprocessors
+        )
+
     async def _validate_to_tuple_async(self, val: Any) -> _ResultTuple[ExactMatchT]:
         return self._validate_to_tuple(val)
 
